@@ -362,7 +362,26 @@ func eqValues(t types.Type, a, b Value) *Term {
 		// func == nil
 		return BoolC(isNilFunc(a) && isNilFunc(b))
 	case RValue:
-		panic(unsupported("comparison of reflect.Value"))
+		y, ok := b.(RValue)
+		if !ok {
+			return FalseT
+		}
+		if !x.OK || !y.OK {
+			return BoolC(!x.OK && !y.OK)
+		}
+		if !types.Identical(x.T, y.T) {
+			return FalseT
+		}
+		if x.Addr != nil || y.Addr != nil {
+			return BoolC(x.Addr == y.Addr)
+		}
+		// reflect.Value == compares representation: same pointer word for
+		// pointer-shaped values, undefined otherwise; only nil-ness is relied on
+		if px, ok := x.V.(*Value); ok {
+			py, _ := y.V.(*Value)
+			return BoolC(px == py)
+		}
+		return FalseT
 	}
 	panic(unsupported(fmt.Sprintf("eqValues on %T", a)))
 }
